@@ -74,16 +74,18 @@ var verifParkedStates = map[string]bool{
 	"chan receive (nil chan)": true, "chan send (nil chan)": true,
 }
 
+var verifStackBuf = make([]byte, 1<<16)
+
 // verifGoroutines returns the header state and the stack text of every goroutine but the caller.
 func verifGoroutines() (states []string, stacks []string) {
-	buf := make([]byte, 1<<16)
+	var buf []byte
 	for {
-		n := runtime.Stack(buf, true)
-		if n < len(buf) {
-			buf = buf[:n]
+		n := runtime.Stack(verifStackBuf, true)
+		if n < len(verifStackBuf) {
+			buf = verifStackBuf[:n]
 			break
 		}
-		buf = make([]byte, 2*len(buf))
+		verifStackBuf = make([]byte, 2*len(verifStackBuf))
 	}
 	for i, blk := range strings.Split(string(buf), "\n\n") {
 		if i == 0 || !strings.HasPrefix(blk, "goroutine ") {
@@ -601,6 +603,10 @@ func (t *verifTerm) handler(kind, path string) bool {
 // ---------------------------------------------------------------- main loop
 
 func verifDriverMain() {
+	// one P: after the driver yields, the goroutines it released run until they park, and
+	// the dump that confirms quiescence is usually taken once (the interleaving is decided
+	// by the script, not by parallelism)
+	runtime.GOMAXPROCS(1)
 	race := os.Getenv("OBFS4PROXY_VERIF_DRIVER") == "race"
 	in := bufio.NewReaderSize(os.Stdin, 1<<20)
 	out := bufio.NewWriter(os.Stdout)
